@@ -271,6 +271,31 @@ func c18Case(t *testing.T, v *vCore, r *kit.Result, rng *kit.Rand, caseID, wkind
 		outs[i] = o
 	}
 	r.Count("lookups_ok", lookupOK)
+	// the creation path must survive rewrapping: lookup on each successor token, and after a
+	// second rewrap of it, must still report the path that created the original
+	for ni, nt := range newTokens {
+		for hop := 0; hop < 2; hop++ {
+			resp, err := v.Do(vReq{Op: logical.UpdateOperation, Path: "sys/wrapping/lookup", Token: user, Data: map[string]any{"token": nt}})
+			if vOK(resp, err) && resp != nil && resp.Data != nil {
+				r.Count("lookups_on_rewrapped_token", 1)
+				if cp, _ := resp.Data["creation_path"].(string); cp != w.Path {
+					r.Violate("C18-creation-path", caseID, fmt.Sprintf("lookup on a rewrapped token (hop %d) reports creation path %q, original %q", hop+1, cp, w.Path), nil)
+				}
+			}
+			if hop == 1 || rng.Chance(1, 2) {
+				break
+			}
+			resp, err = v.Do(vReq{Op: logical.UpdateOperation, Path: "sys/wrapping/rewrap", Token: user, Data: map[string]any{"token": nt}})
+			if !vOK(resp, err) || resp == nil || resp.WrapInfo == nil || resp.WrapInfo.Token == "" {
+				break
+			}
+			if resp.WrapInfo.CreationPath != w.Path {
+				r.Violate("C18-creation-path", caseID, fmt.Sprintf("second rewrap reports creation path %q, original %q", resp.WrapInfo.CreationPath, w.Path), nil)
+			}
+			nt = resp.WrapInfo.Token
+			newTokens[ni] = nt
+		}
+	}
 	// payload handed to rewrap lives on in the new tokens: unwrap each once, then again
 	for _, nt := range newTokens {
 		resp, err := v.Do(vReq{Op: logical.UpdateOperation, Path: "sys/wrapping/unwrap", Token: nt})
